@@ -565,6 +565,10 @@ func bigMimicCase(r *rand.Rand, enc string) *TrieCase {
 func dedupBigCase(r *rand.Rand, enc string) *TrieCase {
 	nG := 14 + r.Intn(30)
 	small := 2 + r.Intn(5)
+	mixed := r.Intn(2) == 0
+	if mixed {
+		small = nG - 1 // the latch stays open for all groups but the last
+	}
 	keys := []string{}
 	groupOf := []int{}
 	for g := 0; g < nG; g++ {
@@ -575,9 +579,16 @@ func dedupBigCase(r *rand.Rand, enc string) *TrieCase {
 		}
 		keys = append(keys, K)
 		groupOf = append(groupOf, g)
-		for _, b := range r.Perm(200)[:m] {
+		// some groups (never the first two) keep a value of their own per extension: their
+		// node keeps more than 10 labels and stays a full 257-bit node BEHIND the thinned ones
+		full := mixed && g >= 2 && g != small && r.Intn(3) == 0
+		for j, b := range r.Perm(200)[:m] {
 			keys = append(keys, K+string([]byte{byte(b + 20)}))
-			groupOf = append(groupOf, g)
+			if full {
+				groupOf = append(groupOf, 1000+g*64+j)
+			} else {
+				groupOf = append(groupOf, g)
+			}
 		}
 	}
 	// sort keys together with their groups
